@@ -167,7 +167,7 @@ package eni
 //@ for C12
 
 //@ # ---- PodENI (remote) results: every configuration is complete, and an address never comes without its subnet and gateway ----
-//@ pure func confComplete(c *rpc.NetConf) bool = c != nil && c.BasicInfo != nil && c.ENIInfo != nil && c.BasicInfo.PodIP != nil && c.BasicInfo.PodCIDR != nil && c.BasicInfo.GatewayIP != nil && (c.BasicInfo.PodIP.IPv4 != "" ==> c.BasicInfo.PodCIDR.IPv4 != "" && c.BasicInfo.GatewayIP.IPv4 != "") && (c.BasicInfo.PodIP.IPv6 != "" ==> c.BasicInfo.PodCIDR.IPv6 != "" && c.BasicInfo.GatewayIP.IPv6 != "")
+//@ pure func confComplete(c *rpc.NetConf) bool = c != nil && c.BasicInfo != nil && c.ENIInfo != nil && c.BasicInfo.PodIP != nil && c.BasicInfo.PodCIDR != nil && c.BasicInfo.GatewayIP != nil && (c.BasicInfo.PodIP.IPv4 != "" ==> c.BasicInfo.PodCIDR.IPv4 != "" && c.BasicInfo.GatewayIP.IPv4 != "" && c.BasicInfo.GatewayIP.IPv4 == gwOf(c.BasicInfo.PodCIDR.IPv4)) && (c.BasicInfo.PodIP.IPv6 != "" ==> c.BasicInfo.PodCIDR.IPv6 != "" && c.BasicInfo.GatewayIP.IPv6 != "" && c.BasicInfo.GatewayIP.IPv6 == gwOf(c.BasicInfo.PodCIDR.IPv6))
 //@ func RemoteIPResource.ToRPC
 //@   requires l != nil && l.podENI != nil
 //@   ensures forall i int :: 0 <= i && i < len(result) ==> confComplete(result[i])
